@@ -49,7 +49,7 @@ def html(html_content: str) -> str:
         """//text()[normalize-space() and not(
             parent::style |
             parent::link |
-            parent::head |
+            ancestor::head |
             parent::script)]"""
     )
     return " ".join(text)
